@@ -311,6 +311,8 @@ type world struct {
 	store *verifmc.Store
 	lock  *verifmc.Store
 	clock int64
+	// steadyClock suppresses clock anomalies (initial, out-of-scenario loads).
+	steadyClock bool
 	// clockMu guards clock (threads may read time concurrently while draining).
 	clockMu sync.Mutex
 	mon     *monitor
@@ -358,7 +360,7 @@ func (w *world) note(format string, a ...any) {
 
 func (w *world) now() int64 {
 	d := int64(1)
-	if w.opt.clock && verifmc.Cur != nil && !verifmc.Cur.Draining() {
+	if w.opt.clock && !w.steadyClock && verifmc.Cur != nil && !verifmc.Cur.Draining() {
 		switch verifmc.Cur.Choose("clock", []string{"+1ms", "stall", "back-5ms", "jump+1h"}, nil) {
 		case 1:
 			d = 0
